@@ -537,6 +537,16 @@ func resolveDisableExp(r Exp, disable []Exp) ([]Exp, error) {
 			if _, ok := v.Forks[r.Call]; !ok {
 				return append(disable, r), nil
 			}
+		case *DisabledExp:
+			for _, e := range disable {
+				if v.Disabled.equal(e) == nil {
+					// Already disabled on the same control.  Each fork
+					// still takes only its own element of the value.
+					s := *r
+					s.Value = v.Value
+					return resolveDisableExp(&s, disable)
+				}
+			}
 		}
 		return resolveDisableExp(r.Value, disable)
 	case *DisabledExp:
